@@ -101,18 +101,23 @@ func runC19(c *an.Ctx) {
 	// the status selection: interruption first, then detection-only
 	if pl := c.P.Func("internal/corazawaf.(*Transaction).ProcessLogging"); pl != nil {
 		okI, okD := false, false
+		var foreign []string
 		for _, b := range pl.Blocks {
 			f := an.FactsAtBlock(b)
 			for _, in := range b.Instrs {
 				e := an.Expr(valueOf(in))
 				if strings.Contains(e, "strconv.Itoa(tx.interruption.Status)") && f.Has("tx.interruption", "!=", "nil") {
 					okI = true
+					foreign = append(foreign, foreignGuards(f, ".AuditEngine", ".interruption", ".detectionOnlyInterruption")...)
 				}
 				if strings.Contains(e, "strconv.Itoa(tx.detectionOnlyInterruption.Status)") && f.Has("tx.interruption", "==", "nil") && f.Has("tx.detectionOnlyInterruption", "!=", "nil") {
 					okD = true
+					foreign = append(foreign, foreignGuards(f, ".AuditEngine", ".interruption", ".detectionOnlyInterruption")...)
 				}
 			}
 		}
+		c.Check(len(foreign) == 0, "R1", "status precedence: the interruption status is used whenever there is one", pl.Pos(), "no other condition on the choice",
+			"the (would-be) interruption's status is only used when additionally "+strings.Join(foreign, ", ")+": otherwise the relevance test sees another status (e.g. the backend's 200 for a response denied in phase 4), so records are lost or written when they should not be")
 		c.Check(okI && okD, "R1", "status precedence: interruption, then would-be interruption", pl.Pos(), "guards in that order", "the relevant-status source does not prefer the real interruption over the DetectionOnly one (or dereferences without its guard)")
 	}
 
@@ -218,6 +223,44 @@ func runC19(c *an.Ctx) {
 				c.Check(strings.Contains(arg, "sl.formatter.Format(al)#0"), "R4", "serial writer prints the formatter's output unmodified", in.Pos(), arg, "the line printed is "+arg)
 			}
 		})
+	}
+	// native format: the section boundary must not be derivable from the logged data (a client that knows or sets
+	// the transaction id, or any other logged value, could forge section markers inside a header or body): the
+	// first value written for every part is built from a fresh random string and from nothing of the record.
+	if nf := c.Fn("R4", "internal/auditlog.(nativeFormatter).Format"); nf != nil && len(nf.Params) > 0 {
+		al := nf.Params[len(nf.Params)-1]
+		var rnd []ssa.Value
+		an.Instrs(nf, func(in ssa.Instruction) {
+			if cc := an.CallOf(in); cc != nil && cc.StaticCallee() != nil && cc.StaticCallee().Name() == "RandomString" {
+				if v, ok := in.(ssa.Value); ok {
+					rnd = append(rnd, v)
+				}
+			}
+		})
+		if len(rnd) == 0 {
+			c.Bad("R4", "native formatter: section boundary is a fresh random string", nf.Pos(), "the native formatter no longer draws a random boundary: section markers are predictable from the record, so logged bytes can contain lines that parse as markers of the same record")
+		} else {
+			// every value that consumes the random string and is written out must not also depend on the record
+			bad := ""
+			an.Instrs(nf, func(in ssa.Instruction) {
+				cc := an.CallOf(in)
+				if cc == nil || cc.StaticCallee() == nil || cc.StaticCallee().Name() != "WriteString" || len(cc.Args) < 2 {
+					return
+				}
+				deps := an.Deps(cc.Args[1])
+				usesRnd := false
+				for _, r := range rnd {
+					if deps[r] {
+						usesRnd = true
+					}
+				}
+				if usesRnd && deps[ssa.Value(al)] {
+					bad = tempName.ReplaceAllString(an.Expr(cc.Args[1]), "")
+				}
+			})
+			c.Check(bad == "", "R4", "native formatter: section boundary is a fresh random string", nf.Pos(), "the boundary depends on RandomString only",
+				"the boundary written for each section ("+bad+") is chosen from the record itself when available: a client that knows the transaction id can put lines such as --<id>-Z-- into a logged body and split the record")
+		}
 	}
 	if jf := c.Fn("R4", "internal/auditlog.(jsonFormatter).Format"); jf != nil {
 		ok := false
